@@ -101,7 +101,12 @@ let e4_dump nv n s =
   for k = 0 to n + nv - 1 do
     let th = getth s (nat_of_int k) in
     let user = k >= nv && k < n in
-    let cnt = if user then Printf.sprintf "c%d%d%d" (ion th.g_started) (ion th.g_finished) (ion th.g_disposed) else "" in
+    (* `started` is counted by the model at the ring rotation (switch_in) but can be observed only when the entry function is
+       entered, i.e. after the pending part of the switch: for the thread a parked vCPU (yield window) is switching to, the
+       pre-switch value is shown (a thread at pc 0 / phase 0 that is CURRENT under a pending switch was fresh before it) *)
+    let in_switch = user && th.th_state = RUNNING && ion th.th_pc = 0 && ion th.th_k = 0 && ion th.th_vcpu < nv &&
+      (let vc = getvc s th.th_vcpu in vc.v_pend <> PNone && (match vc.v_runq with c :: _ -> ion c = k | [] -> false)) in
+    let cnt = if user then Printf.sprintf "c%d%d%d" (ion th.g_started - (if in_switch && ion th.g_started > 0 then 1 else 0)) (ion th.g_finished) (ion th.g_disposed) else "" in
     match th.th_state with
     | NOTCREATED -> ()
     | DONE -> Buffer.add_string b (Printf.sprintf "T%d=D%s " k cnt)
